@@ -315,6 +315,22 @@ var c13HostileOIDs = [][]byte{
 	{0xFF, 0xFF, 0xFF, 0xFF, 0xFF, 0xFF, 0xFF, 0xFF, 0xFF, 0x7F}, // arc beyond 64 bits
 }
 
+// c13HostileInts: content octets of extreme INTEGER values (2^63-1, 2^63, 2^64-1, 2^32-1, 2^31, 2^31-1, -1, -2^63, 2^16, 0,
+// and a 33-octet value).
+var c13HostileInts = [][]byte{
+	{0x7f, 0xff, 0xff, 0xff, 0xff, 0xff, 0xff, 0xff},
+	{0x00, 0x80, 0x00, 0x00, 0x00, 0x00, 0x00, 0x00, 0x00},
+	{0x00, 0xff, 0xff, 0xff, 0xff, 0xff, 0xff, 0xff, 0xff},
+	{0x00, 0xff, 0xff, 0xff, 0xff},
+	{0x00, 0x80, 0x00, 0x00, 0x00},
+	{0x7f, 0xff, 0xff, 0xff},
+	{0xff},
+	{0x80, 0x00, 0x00, 0x00, 0x00, 0x00, 0x00, 0x00},
+	{0x01, 0x00, 0x00},
+	{0x00},
+	{0x01, 0, 0, 0, 0, 0, 0, 0, 0, 0, 0, 0, 0, 0, 0, 0, 0, 0, 0, 0, 0, 0, 0, 0, 0, 0, 0, 0, 0, 0, 0, 0, 0x01},
+}
+
 var c13LieVarsHostile = func() []c13LieVar {
 	var out []c13LieVar
 	for k := range c13HostileStrings {
@@ -438,6 +454,15 @@ func (a *c13Art) lieVariant(el int, v c13LieVar) ([]byte, string) {
 				}
 				t.Content = append([]byte{}, c13HostileOIDs[v.k]...)
 				return c.Encode(), fmt.Sprintf("oid:=%x", c13HostileOIDs[v.k])
+			}
+			if t.Children == nil && t.Tag == 0x02 {
+				// an INTEGER names a size, a count or a version: its VALUE is replaced by extreme ones (re-encoded with
+				// consistent lengths; the cost parameters of password KDFs are excluded like everywhere else)
+				if v.k >= len(c13HostileInts) || bytes.Equal(t.Content, c13HostileInts[v.k]) {
+					return nil, ""
+				}
+				t.Content = append([]byte{}, c13HostileInts[v.k]...)
+				return c.Encode(), fmt.Sprintf("int:=%x", c13HostileInts[v.k])
 			}
 			if !c13StringLike(t) {
 				return nil, ""
